@@ -3,7 +3,9 @@
   Property theorems only; helper lemmas in Proofs/Marks.lean.
 -/
 import PM.Marks
+import PM.SchemaCompile
 import Proofs.Marks
+import Proofs.SchemaCompile
 namespace PM.C14
 open PM
 
@@ -144,5 +146,330 @@ theorem allowedMarks_id_iff (nt : NodeType) (ms : Marks) :
 theorem allowedMarks_canonical (S : Schema) (nt : NodeType) (ms : Marks) (h : Canon S ms) :
     Canon S (nt.allowedMarks ms) := by
   exact (canon_iff S _).mpr (((canon_iff S _).mp h).sublist List.filter_sublist)
+
+/-! ### The exclusion and permission tables are what the spec says (construction of the schema,
+    `PM/SchemaCompile.lean: compileSchema`, tied field by field to `Schema(spec)`)
+
+    `Names marks w b`: word `w` names mark type `b` — it is `b`'s name, or no mark has that name and the
+    word is `"_"` or one of `b`'s groups (a mark *name* shadows a group of the same name and `"_"`:
+    `gather_marks` looks the word up as a name first).  `Known marks w`: the word finds some mark type.
+    The names of a spec dict are distinct (`hnd`); `pySplit e` is `e.split(" ")`. -/
+
+open PM.SchemaCompile
+
+/-- every id in a compiled `excluded` list is a mark type of the spec -/
+theorem excluded_lt {spec : Spec} {dfas : List Dfa} {S : Schema} (h : compileSchema spec dfas = .ok S)
+    (a b : Nat) (ha : a < spec.marks.length) (hex : S.excludes a b = true) : b < spec.marks.length := by
+  have c := compileSchema_ok h
+  have hm := compileMark_ok (c.mark a ha)
+  simp only [Schema.excludes, List.contains_iff_mem] at hex
+  cases hx : spec.marks[a].excludes with
+  | none =>
+    simp only [hx] at hm
+    rw [hm.2.2.2] at hex
+    simp only [List.mem_singleton] at hex
+    rw [hex]; exact ha
+  | some e =>
+    simp only [hx] at hm
+    by_cases he : e = ""
+    · simp only [he, if_true] at hm
+      rw [hm.2.2.2] at hex
+      simp at hex
+    · simp only [he, if_false] at hm
+      exact gatherMarks_lt _ _ _ hm.2.2.2 b hex
+
+/-- **`excluded_spec`**: in the schema compiled from an accepted spec, mark type `a` excludes `b` iff —
+    `excludes` absent: `a = b`; `""`: never; otherwise some space-separated word of the expression
+    names `b` (`"_"` names every mark type unless a mark is called `"_"`). -/
+theorem excluded_spec {spec : Spec} {dfas : List Dfa} {S : Schema} (h : compileSchema spec dfas = .ok S)
+    (hnd : (spec.marks.map (·.name)).Nodup) (a b : Nat) (ha : a < spec.marks.length) (hb : b < spec.marks.length) :
+    S.excludes a b = true ↔
+      match spec.marks[a].excludes with
+      | none => a = b
+      | some e => e ≠ "" ∧ ∃ w ∈ pySplit e, Names spec.marks w spec.marks[b] := by
+  have c := compileSchema_ok h
+  have hm := compileMark_ok (c.mark a ha)
+  simp only [Schema.excludes, List.contains_iff_mem]
+  cases hx : spec.marks[a].excludes with
+  | none =>
+    simp only [hx] at hm
+    rw [hm.2.2.2]
+    simp only [List.mem_singleton]
+    exact eq_comm
+  | some e =>
+    simp only [hx] at hm
+    by_cases he : e = ""
+    · simp only [he, if_true] at hm
+      rw [hm.2.2.2]
+      simp [he]
+    · simp only [he, if_false] at hm
+      rw [mem_gatherMarks _ _ _ hm.2.2.2 b]
+      simp only [ne_eq, he, not_false_eq_true, true_and]
+      constructor
+      · rintro ⟨w, hw, hmem⟩
+        exact ⟨w, hw, (mem_wordMarks_names _ hnd w b hb).mp hmem⟩
+      · rintro ⟨w, hw, hn⟩
+        exact ⟨w, hw, (mem_wordMarks_names _ hnd w b hb).mpr hn⟩
+
+/-- no mark is called `"_"` or like a group of some mark: then a word names a mark type iff it is its
+    name, one of its groups, or `"_"` -/
+def Separated (marks : List MarkSpec) : Prop :=
+  ∀ m ∈ marks, m.name ≠ "_" ∧ ∀ m' ∈ marks, m.name ∉ m'.groups
+
+instance (marks : List MarkSpec) : Decidable (Separated marks) := by unfold Separated; infer_instance
+
+theorem names_iff_of_separated (marks : List MarkSpec) (hs : Separated marks) (w : String) (b : MarkSpec)
+    (hb : b ∈ marks) : Names marks w b ↔ (b.name = w ∨ w = "_" ∨ w ∈ b.groups) := by
+  unfold Names
+  constructor
+  · rintro (h | ⟨_, h⟩)
+    · exact Or.inl h
+    · exact Or.inr h
+  · rintro (h | h)
+    · exact Or.inl h
+    · refine Or.inr ⟨?_, h⟩
+      intro m hm e
+      subst e
+      rcases h with h | h
+      · exact (hs m hm).1 h
+      · exact (hs m hm).2 b hb h
+
+/-- the four cases of the documentation, for a spec whose mark names are separate from `"_"` and from
+    the group names: absent — only itself; `"_"` — everything; `""` — nothing; otherwise — the marks
+    whose name or one of whose groups is listed (or everything, if `"_"` is one of the words) -/
+theorem excluded_cases {spec : Spec} {dfas : List Dfa} {S : Schema} (h : compileSchema spec dfas = .ok S)
+    (hnd : (spec.marks.map (·.name)).Nodup) (hs : Separated spec.marks)
+    (a b : Nat) (ha : a < spec.marks.length) (hb : b < spec.marks.length) :
+    (spec.marks[a].excludes = none → (S.excludes a b = true ↔ a = b)) ∧
+    (spec.marks[a].excludes = some "_" → S.excludes a b = true) ∧
+    (spec.marks[a].excludes = some "" → S.excludes a b = false) ∧
+    (∀ e, spec.marks[a].excludes = some e → e ≠ "" →
+      (S.excludes a b = true ↔ ∃ w ∈ pySplit e,
+        spec.marks[b].name = w ∨ w = "_" ∨ w ∈ spec.marks[b].groups)) := by
+  have key := excluded_spec h hnd a b ha hb
+  have hbm : spec.marks[b] ∈ spec.marks := List.getElem_mem hb
+  refine ⟨?_, ?_, ?_, ?_⟩
+  · intro hx; rw [hx] at key; exact key
+  · intro hx; rw [hx] at key
+    refine key.mpr ⟨by decide, "_", by decide, ?_⟩
+    exact (names_iff_of_separated _ hs _ _ hbm).mpr (Or.inr (Or.inl rfl))
+  · intro hx; rw [hx] at key
+    cases hq : S.excludes a b with
+    | false => rfl
+    | true => exact absurd (key.mp hq).1 (by simp)
+  · intro e hx he; rw [hx] at key
+    rw [key]
+    simp only [ne_eq, he, not_false_eq_true, true_and]
+    constructor
+    · rintro ⟨w, hw, hn⟩; exact ⟨w, hw, (names_iff_of_separated _ hs _ _ hbm).mp hn⟩
+    · rintro ⟨w, hw, hn⟩; exact ⟨w, hw, (names_iff_of_separated _ hs _ _ hbm).mpr hn⟩
+
+/-- **`markSet_spec`**: node type `n` allows mark type `m` iff — `marks` absent: `n` has inline content;
+    `"_"`: always; `""`: never; otherwise some word of the expression names `m`. -/
+theorem markSet_spec {spec : Spec} {dfas : List Dfa} {S : Schema} (h : compileSchema spec dfas = .ok S)
+    (hnd : (spec.marks.map (·.name)).Nodup) (n m : Nat) (hn : n < spec.nodes.length) (hm : m < spec.marks.length) :
+    (S.nodeType n).allowsMarkType m = true ↔
+      match spec.nodes[n].marks with
+      | none => (S.nodeType n).inlineContent = true
+      | some e => e = "_" ∨ (e ≠ "" ∧ ∃ w ∈ pySplit e, Names spec.marks w spec.marks[m]) := by
+  have c := compileSchema_ok h
+  have hc := (compileNode_ok (c.node n hn)).2.2.2.2.2.2.2.2.2.2.2.2
+  unfold markSetOf at hc
+  unfold NodeType.allowsMarkType
+  cases hx : spec.nodes[n].marks with
+  | none =>
+    simp only [hx] at hc
+    cases hic : (S.nodeType n).inlineContent with
+    | false =>
+      simp only [hic, Bool.not_false, if_true, Except.ok.injEq] at hc
+      simp [← hc]
+    | true =>
+      simp only [hic, Bool.not_true, Bool.false_eq_true, if_false, Except.ok.injEq] at hc
+      simp [← hc]
+  | some e =>
+    simp only [hx, beq_iff_eq, bne_iff_ne, ne_eq] at hc
+    by_cases h1 : e = "_"
+    · simp only [h1, if_true, Except.ok.injEq] at hc
+      simp [← hc, h1]
+    · by_cases h2 : e = ""
+      · simp only [h2, if_false, not_true_eq_false] at hc
+        have : ¬ ("" = "_") := by decide
+        simp only [this, if_false, Except.ok.injEq] at hc
+        simp [← hc, h2, this]
+      · simp only [h1, if_false, h2, not_false_eq_true, if_true] at hc
+        split at hc
+        · cases hc
+        · rename_i l hl
+          simp only [Except.ok.injEq] at hc
+          simp only [← hc, List.contains_iff_mem, mem_gatherMarks _ _ _ hl m, h1, false_or, ne_eq, h2,
+            not_false_eq_true, true_and]
+          constructor
+          · rintro ⟨w, hw, hmem⟩
+            exact ⟨w, hw, (mem_wordMarks_names _ hnd w m hm).mp hmem⟩
+          · rintro ⟨w, hw, hnm⟩
+            exact ⟨w, hw, (mem_wordMarks_names _ hnd w m hm).mpr hnm⟩
+
+/-- every id in a compiled `mark_set` is a mark type of the spec -/
+theorem markSet_lt {spec : Spec} {dfas : List Dfa} {S : Schema} (h : compileSchema spec dfas = .ok S)
+    (n : Nat) (hn : n < spec.nodes.length) (l : List MarkTypeId) (hl : (S.nodeType n).markSet = some l)
+    (m : Nat) (hm : m ∈ l) : m < spec.marks.length := by
+  have c := compileSchema_ok h
+  have hc := (compileNode_ok (c.node n hn)).2.2.2.2.2.2.2.2.2.2.2.2
+  unfold markSetOf at hc
+  rw [hl] at hc
+  split at hc
+  · split at hc
+    · cases hc
+    · split at hc
+      · split at hc
+        · cases hc
+        · rename_i r hr
+          simp only [Except.ok.injEq, Option.some.injEq] at hc
+          subst hc
+          exact gatherMarks_lt _ _ _ hr m hm
+      · simp only [Except.ok.injEq, Option.some.injEq] at hc
+        subst hc
+        simp at hm
+  · split at hc
+    · simp only [Except.ok.injEq, Option.some.injEq] at hc
+      subst hc
+      simp at hm
+    · cases hc
+
+/-- **`compile_accepts_iff`**: `Schema(spec)` succeeds exactly when the top node type (`topNode`, default
+    `"doc"`) and a `text` type exist, `text` has no attributes, no name is both a node and a mark, and
+    every word of every non-trivial `marks` / `excludes` expression finds a mark type (whatever the
+    content automata are) -/
+theorem compile_accepts_iff (spec : Spec) (dfas : List Dfa) (hnd : (spec.nodes.map (·.name)).Nodup) :
+    (∃ S, compileSchema spec dfas = .ok S) ↔ Accepts spec := by
+  exact compileSchema_ok_iff spec dfas hnd
+
+theorem refused_of_not_ok {spec : Spec} {dfas : List Dfa} (h : ¬ ∃ S, compileSchema spec dfas = .ok S) :
+    ∃ err, compileSchema spec dfas = .error err := by
+  cases hc : compileSchema spec dfas with
+  | error e => exact ⟨e, rfl⟩
+  | ok S => exact absurd ⟨S, hc⟩ h
+
+/-- **`compile_rejects_unknown`**: a spec is refused when a word of an `excludes` expression or of a
+    node's `marks` expression names neither a mark nor a group (nor is `"_"` with at least one mark
+    declared), when a name is used for a node and for a mark, and when there is no `text` type — for
+    every spec (no assumption on the names) -/
+theorem compile_rejects_unknown (spec : Spec) (dfas : List Dfa) :
+    ((∃ m ∈ spec.marks, ∃ e, m.excludes = some e ∧ e ≠ "" ∧ ∃ w ∈ pySplit e, ¬ Known spec.marks w) →
+      ∃ err, compileSchema spec dfas = .error err) ∧
+    ((∃ n ∈ spec.nodes, ∃ e, n.marks = some e ∧ e ≠ "_" ∧ e ≠ "" ∧ ∃ w ∈ pySplit e, ¬ Known spec.marks w) →
+      ∃ err, compileSchema spec dfas = .error err) ∧
+    ((∃ n ∈ spec.nodes, ∃ m ∈ spec.marks, m.name = n.name) → ∃ err, compileSchema spec dfas = .error err) ∧
+    ((∀ n ∈ spec.nodes, n.name ≠ "text") → ∃ err, compileSchema spec dfas = .error err) ∧
+    ((∀ n ∈ spec.nodes, n.name ≠ spec.topName) → ∃ err, compileSchema spec dfas = .error err) := by
+  refine ⟨?_, ?_, ?_, ?_, ?_⟩
+  · rintro ⟨m, hm, e, hx, he, w, hw, hk⟩
+    refine refused_of_not_ok ?_
+    rintro ⟨S, h⟩
+    have c := compileSchema_ok h
+    obtain ⟨i, hi, rfl⟩ := List.getElem_of_mem hm
+    exact hk ((compileMark_ok_iff spec i _).mp ⟨_, c.mark i hi⟩ e hx he w hw)
+  · rintro ⟨n, hn, e, hx, h1, h2, w, hw, hk⟩
+    refine refused_of_not_ok ?_
+    rintro ⟨S, h⟩
+    have c := compileSchema_ok h
+    obtain ⟨i, hi, rfl⟩ := List.getElem_of_mem hn
+    exact hk (((compileNode_ok_iff spec dfas i _).mp ⟨_, c.node i hi⟩).2 e hx h1 h2 w hw)
+  · rintro ⟨n, hn, m, hm, e⟩
+    refine refused_of_not_ok ?_
+    rintro ⟨S, h⟩
+    have c := compileSchema_ok h
+    obtain ⟨i, hi, rfl⟩ := List.getElem_of_mem hn
+    exact ((compileNode_ok_iff spec dfas i _).mp ⟨_, c.node i hi⟩).1 m hm e
+  · intro hno
+    refine refused_of_not_ok ?_
+    rintro ⟨S, h⟩
+    have c := compileSchema_ok h
+    obtain ⟨hl, hname⟩ := nodeName_of_findIdx? _ _ _ c.text
+    exact hno _ (List.getElem_mem hl) hname
+  · intro hno
+    refine refused_of_not_ok ?_
+    rintro ⟨S, h⟩
+    have c := compileSchema_ok h
+    obtain ⟨hl, hname⟩ := nodeName_of_findIdx? _ _ _ c.top
+    exact hno _ (List.getElem_mem hl) hname
+
+/-- every refusal has its cause (`Cause`): `missingTop` / `missingText` — no node type of that name;
+    `textAttrs` — the text type declares attributes; `nameClash` — a name used for a node and a mark
+    (the `ValueError`s); `unknownMark` — a `marks` or `excludes` expression with a word that finds no
+    mark type (the `SyntaxError`) -/
+theorem refusal_cause {spec : Spec} {dfas : List Dfa} {err : CompileErr}
+    (h : compileSchema spec dfas = .error err) : Cause spec err := by
+  exact compileSchema_error h
+
+/-- **`ranks_are_declaration_order`**: the mark type table has one entry per mark spec, in the order of
+    declaration (the rank of a mark type is its index in this table, `PM/Marks.lean`), and likewise the
+    node type table -/
+theorem ranks_are_declaration_order {spec : Spec} {dfas : List Dfa} {S : Schema}
+    (h : compileSchema spec dfas = .ok S) :
+    S.marks.size = spec.marks.length ∧ S.nodes.size = spec.nodes.length ∧
+    (∀ i (hi : i < spec.marks.length), (S.markType i).name = spec.marks[i].name) ∧
+    (∀ i (hi : i < spec.nodes.length), (S.nodeType i).name = spec.nodes[i].name) := by
+  have c := compileSchema_ok h
+  exact ⟨c.marksSize, c.nodesSize, fun i hi => (compileMark_ok (c.mark i hi)).1,
+    fun i hi => (compileNode_ok (c.node i hi)).2.1⟩
+
+/-- the other compiled fields of a mark type: `inclusive` and the attribute declarations
+    (`has_default` ⇔ the attribute spec has a `default` key) -/
+theorem markType_fields {spec : Spec} {dfas : List Dfa} {S : Schema} (h : compileSchema spec dfas = .ok S)
+    (i : Nat) (hi : i < spec.marks.length) :
+    (S.markType i).inclusive = spec.marks[i].inclusive ∧
+    (S.markType i).attrs = initAttrs spec.marks[i].attrs ∧
+    (hasRequiredAttrs (S.markType i).attrs = true ↔ ∃ a ∈ spec.marks[i].attrs, a.default = none) := by
+  have c := compileSchema_ok h
+  have hm := compileMark_ok (c.mark i hi)
+  refine ⟨hm.2.1, hm.2.2.1, ?_⟩
+  rw [hm.2.2.1]
+  simp [hasRequiredAttrs, initAttrs]
+
+/-! a small spec, decided by evaluation: `link` (no `excludes`) excludes itself only; `code` (`"_"`)
+    everything; `note` (`""`) nothing; `hl` (`"fmt link"`) the group `fmt` and `link`; the paragraph
+    (`marks` absent, inline content) allows everything, `pre` (`"fmt"`) the group, `doc` nothing -/
+def exSpec : Spec := {
+  nodes := [
+    { name := "doc", content := "block+" },
+    { name := "p", content := "text*", group := some "block" },
+    { name := "pre", content := "text*", group := some "block", marks := some "fmt", code := true },
+    { name := "text", group := some "inline" }],
+  marks := [
+    { name := "link", attrs := [{ name := "href" }] },
+    { name := "em", group := some "fmt" },
+    { name := "strong", group := some "fmt x" },
+    { name := "code", excludes := some "_" },
+    { name := "note", excludes := some "" },
+    { name := "hl", excludes := some "fmt link" }] }
+
+def exDfas : List Dfa := [
+  #[⟨false, [(1, 1), (2, 1)]⟩, ⟨true, [(1, 1), (2, 1)]⟩],
+  #[⟨true, [(3, 0)]⟩], #[⟨true, [(3, 0)]⟩], #[⟨true, []⟩]]
+
+/-- the refusal, if any -/
+def refusal (r : Except CompileErr Schema) : Option CompileErr :=
+  match r with
+  | .error e => some e
+  | .ok _ => none
+
+example : exSpec.WF := by decide
+example : Separated exSpec.marks := by decide
+example : ((compileSchema exSpec exDfas).toOption.map (fun S => S.marks.toList.map (·.excluded))) =
+    some [[0], [1], [2], [0, 1, 2, 3, 4, 5], [], [1, 2, 0]] := by decide
+example : ((compileSchema exSpec exDfas).toOption.map (fun S => S.nodes.toList.map (·.markSet))) =
+    some [some [], none, some [1, 2], some []] := by decide
+example : ((compileSchema exSpec exDfas).toOption.map (fun S => S.nodes.toList.map (·.inlineContent))) =
+    some [false, true, true, false] := by decide
+/-- an unknown word, a node/mark name clash, no text type: refused -/
+example : refusal (compileSchema { exSpec with marks := exSpec.marks ++ [{ name := "bad", excludes := some "em nosuch" }] } exDfas)
+    = some .unknownMark := by decide
+example : refusal (compileSchema { exSpec with marks := exSpec.marks ++ [{ name := "p" }] } exDfas) = some .nameClash := by decide
+example : refusal (compileSchema { exSpec with nodes := exSpec.nodes.take 3 } exDfas) = some .missingText := by decide
+example : refusal (compileSchema exSpec exDfas) = none := by decide
+/-- a mark *named* like a group shadows the group: `hl` now excludes the mark `fmt` and `link` only -/
+example : ((compileSchema { exSpec with marks := exSpec.marks ++ [{ name := "fmt" }] } exDfas).toOption.map
+    (fun S => (S.markType 5).excluded)) = some [6, 0] := by decide
 
 end PM.C14
